@@ -83,6 +83,8 @@ func c16Row(cr c16Crop, table int) string {
 	case 4: // irrigation in one stage only, small daily maximum, irrigate when below 95 % of capacity
 		irr1, irr2, irrlow, irrmax = "3", "3", " 95", "  8"
 		nd1, nd2, nd3, st1, st2, st3 = "250", "250", "250", "S0 ", "S2 ", "S4 "
+	case 10: // a daily maximum of 0 mm: irrigation is configured in every stage, but nothing may be applied
+		irr1, irr2, irrlow, irrmax = "1", "6", " 95", "  0"
 	case 9: // (used by the long worlds) harvest at any topsoil moisture: the model may decide to harvest on a rainy day
 		hmomax = "999.0"
 	case 8: // (used by C13) irrigation in every stage, small daily maximum, irrigate when below 90 % of capacity
@@ -144,6 +146,12 @@ func c16Specs(tier string, seed int) []c16Spec {
 			for sw := 0; sw < 16; sw++ {
 				out = append(out, c16Spec{Rot: r, Table: t, Switch: sw, Alpha: alpha, D: d})
 			}
+		}
+	}
+	// table 10 (daily irrigation maximum 0) with automatic irrigation on
+	for r := 0; r < 3; r++ {
+		for _, sw := range []int{4, 5, 7, 12, 15} {
+			out = append(out, c16Spec{Rot: r, Table: 10, Switch: sw, Alpha: alpha, D: d - 1})
 		}
 	}
 	// table 7 (organic fertiliser timed by the sowing date) for the rotations with automatic organic fertiliser
